@@ -165,7 +165,9 @@ func runC20d(c *c20dCase) (v *vcommon.Violation, nontrivial, inconclusive bool) 
 					if st.Inuse > wantAll[p] || st.Inuse < wantSure[p] {
 						return fail("inuse-accounting:"+kind.String(), "%s: Inuse = %d, live entries occupy %d bytes (%d without entries that may have been evicted); garbage %d, tables %d", where, st.Inuse, wantAll[p], wantSure[p], st.Garbage, st.NumTables), nontrivial, false
 					}
-					maxTables := (peak[p]+den-1)/den + (roundBytes[p]+(S-emax)-1)/(S-emax) + 3
+					// closed survivors + tables opened by this round's writes + tables opened while compaction
+					// moves the live entries, plus one each for rounding and the table being written
+					maxTables := (peak[p]+den-1)/den + (roundBytes[p]+(S-emax)-1)/(S-emax) + (peak[p]+(S-emax)-1)/(S-emax) + 4
 					if st.NumTables > maxTables {
 						return fail("unbounded-tables:"+kind.String(), "%s: %d tables (%d bytes) allocated for %d live bytes (peak %d, %d bytes written this round); bound %d tables", where, st.NumTables, st.Allocated, st.Inuse, peak[p], roundBytes[p], maxTables), nontrivial, false
 					}
